@@ -4,9 +4,12 @@ import (
 	"bytes"
 	"context"
 	"fmt"
+	"strings"
+	"sync/atomic"
 	"testing"
 	"time"
 
+	kvexec "github.com/evstack/ev-node/apps/testapp/kv"
 	coreseq "github.com/evstack/ev-node/core/sequencer"
 
 	"verif/harness/explore"
@@ -28,9 +31,12 @@ type outcome struct {
 	tags   []string
 	events []event
 	sig    string
+	ahead  int // recoveries that started with the executor's database ahead of the recorded state (kv part)
 }
 
-func body(c *explore.Ctx, steps int) outcome {
+// body runs one history. kv=false: execution double; kv=true: the repository's KVExecutor on its own durable database
+// (kv_test.go), whose commits are crash points too and whose batches are "key=value" transactions.
+func body(c *explore.Ctx, steps int, kv bool) outcome {
 	ctx := context.Background()
 	var out outcome
 	step := 0
@@ -40,8 +46,36 @@ func body(c *explore.Ctx, steps int) outcome {
 	clock := world.GenesisTime
 	fresh := 0
 	armed := true
+	var disk *kvDisk
+	if kv {
+		disk = &kvDisk{}
+	}
 	env.Seq.Next = func(req coreseq.GetNextBatchRequest) world.SeqAnswer {
 		clock = clock.Add(time.Second)
+		if kv {
+			// 0: a batch that changes the application state (overwrites k1, adds a key); 1: empty batch;
+			// 2 (only when k1 exists): a non-empty batch that rewrites k1 with the value it has (root unchanged)
+			cur, has := disk.value("k1")
+			alts := 2
+			if has {
+				alts = 3
+			}
+			k := 0
+			if armed {
+				k = c.Choose("chain", alts)
+			}
+			switch k {
+			case 1:
+				ev("seq:empty")
+				return world.SeqAnswer{Kind: "batch", Time: clock}
+			case 2:
+				ev("seq:rewrite k1=%s", cur)
+				return world.SeqAnswer{Kind: "batch", Txs: [][]byte{[]byte("k1=" + cur)}, Time: clock}
+			}
+			fresh++
+			ev("seq:fresh%d", fresh)
+			return world.SeqAnswer{Kind: "batch", Txs: [][]byte{[]byte(fmt.Sprintf("k1=v%d", fresh)), []byte(fmt.Sprintf("n%d=v%d", fresh, fresh))}, Time: clock}
+		}
 		if armed && c.Choose("chain", 2) == 1 {
 			ev("seq:empty")
 			return world.SeqAnswer{Kind: "batch", Time: clock}
@@ -51,6 +85,9 @@ func body(c *explore.Ctx, steps int) outcome {
 		return world.SeqAnswer{Kind: "batch", Txs: [][]byte{[]byte(fmt.Sprintf("tx-%d", fresh))}, Time: clock}
 	}
 	var crashTags []string
+	if kv {
+		crashTags = append(crashTags, "kv-executor")
+	}
 	lastWrite := ""
 	onWrite := func(idx int, w world.Write) bool {
 		if !armed {
@@ -63,6 +100,24 @@ func body(c *explore.Ctx, steps int) outcome {
 		}
 		lastWrite = w.String()
 		return false
+	}
+	// the executor's database is a second durable store of the same process: its commits are crash points too
+	onExecWrite := func(idx int, w world.Write) bool {
+		if !armed {
+			return false
+		}
+		desc := "exec-db:" + w.String()
+		if c.Choose("crash", 2) == 1 {
+			ev("crash before executor-database write #%d %s (after %s)", idx, w, lastWrite)
+			crashTags = append(crashTags, "crash:after["+kindOf(lastWrite)+"]before["+kindOf(desc)+"]")
+			return true
+		}
+		lastWrite = desc
+		return false
+	}
+	opts := world.NodeOpts{Aggregator: true, OnWrite: onWrite}
+	if kv {
+		opts.ExecImpl = disk.open(env, onExecWrite)
 	}
 	// what the outside world has seen: committed (chain height reached h) or broadcast header hashes
 	seen := map[uint64][]byte{}
@@ -90,7 +145,7 @@ func body(c *explore.Ctx, steps int) outcome {
 	boot := func(img map[string][]byte) *world.Fail {
 		for {
 			lastWrite = "boot"
-			nn, err := world.StartNode(p, env, img, world.NodeOpts{Aggregator: true, OnWrite: onWrite})
+			nn, err := world.StartNode(p, env, img, opts)
 			if err == world.ErrCrashedDuringStart {
 				img = nn.KV.Image()
 				continue
@@ -112,7 +167,27 @@ func body(c *explore.Ctx, steps int) outcome {
 				bs = append(bs, a.Txs)
 			}
 		}
-		return world.ChainSpec{ChainID: n.P.ChainID, Initial: initial, Proposer: n.Signer, Batches: bs, CheckBatches: true}
+		sp := world.ChainSpec{ChainID: n.P.ChainID, Initial: initial, Proposer: n.Signer, Batches: bs, CheckBatches: true}
+		if kv {
+			sp.Roots = kvRoots(n.P) // reference: a KVExecutor of its own executes the committed chain from genesis
+		}
+		return sp
+	}
+	// execAhead (vacuity guard, not an oracle): at the crash instant the executor's database holds a root that the
+	// node's recorded state does not name yet
+	execAhead := func(img map[string][]byte) bool {
+		if !kv {
+			return false
+		}
+		root, err := kvexec.VerifNewKVExecutorOn(world.NewKV(disk.kv.Image()), 1).VerifStateRoot(ctx)
+		if err != nil {
+			return false
+		}
+		st, err := world.ImageStore(img).GetState(ctx)
+		if err != nil {
+			return len(root) > 0
+		}
+		return !bytes.Equal(st.AppHash, root)
 	}
 	full := func(when string) *world.Fail {
 		// published headers are pinned too
@@ -145,13 +220,21 @@ func body(c *explore.Ctx, steps int) outcome {
 			if f := observe(img); f != nil {
 				return f
 			}
+			ahead := execAhead(img)
+			if ahead {
+				out.ahead++
+			}
 			if f := boot(img); f != nil {
 				return f
 			}
 			if f := full("after reboot"); f != nil {
 				return f
 			}
-			sig += "X"
+			if ahead {
+				sig += "A" // crash with the executor's database ahead of the node's recorded state
+			} else {
+				sig += "X"
+			}
 		} else {
 			if err != nil {
 				ev("step-error:%s", short(err.Error()))
@@ -200,6 +283,11 @@ func kindOf(w string) string {
 	switch {
 	case w == "boot":
 		return "boot"
+	case strings.HasPrefix(w, "exec-db:"):
+		if strings.Contains(w, "/genesis/") {
+			return "exec-genesis"
+		}
+		return "exec-commit"
 	case bytes.Contains([]byte(w), []byte("/m/l")):
 		return "batch-cursor"
 	case bytes.Contains([]byte(w), []byte("batch(")):
@@ -223,55 +311,127 @@ func TestCheck(t *testing.T) {
 	r := vf.Start("C04", "fault_enumeration")
 	steps := vf.Pick(r, 4, 5)
 	budgets := vf.Pick(r, map[string]int{"crash": 2}, map[string]int{"crash": 3})
+	// real-executor part (kv_test.go): 3 alternatives per step and more crash points per step
+	kvSteps := vf.Pick(r, 4, 5)
+	kvBudgets := vf.Pick(r, map[string]int{"crash": 2}, map[string]int{"crash": 3})
 	r.Assume = []string{
 		"crash model: the process dies between two durable datastore writes (a put, a delete, one batch commit are atomic units); nothing in memory survives; the DA, execution and sequencing layers are external and survive",
 		"'permanently unable to produce' is decided as: 3 well-formed production steps after recovery add no block",
 		"execution/sequencing doubles as in C01",
+		"real-executor part: the execution layer of the aggregator is the repository's apps/testapp/kv.KVExecutor built by the hook VerifNewKVExecutorOn on a logging datastore that survives the process (stands for its badger directory; a batch commit is atomic); every life of the node opens a new executor on what the previous life left there, the node store image and the executor image survive a crash independently as they are; the reference roots of the chain oracle come from a second KVExecutor on an empty database executing the committed blocks once in order (the executor's own contract is C15's subject)",
 	}
-	run := func(c *explore.Ctx) outcome { return body(c, steps) }
+	type hist struct {
+		KV      bool
+		Choices []explore.Point
+	}
+	report := func(o outcome, h hist, cost int, withEvents bool) {
+		msg, part := o.fail.Msg, ""
+		if h.KV {
+			part = "[real KVExecutor as execution layer] "
+		}
+		if withEvents {
+			msg = fmt.Sprintf("%s%s\n events: %v", part, o.fail.Msg, o.events)
+		}
+		var hh any = h.Choices // the double part keeps its replay format
+		if h.KV {
+			hh = h
+		}
+		r.Report(vf.Violation{Clause: o.fail.Clause, Tags: o.tags, Msg: msg, Cost: cost, History: hh})
+	}
 	if r.ReplayPath() != "" {
 		var ch []explore.Point
-		if _, err := r.LoadReplay(&ch); err != nil {
+		var h hist
+		if _, err := r.LoadReplay(&ch); err == nil {
+			h = hist{Choices: ch}
+		} else if _, err := r.LoadReplay(&h); err != nil || len(h.Choices) == 0 {
 			// a cache-phase artefact: re-run the (small) cache phase completely
 			cachePhase(r)
-		} else {
-			explore.ReplayOne(ch, func(c *explore.Ctx) {
-				if o := run(c); o.fail != nil {
-					fmt.Println(o.fail.Msg, o.events)
-					r.Report(vf.Violation{Clause: o.fail.Clause, Tags: o.tags, Msg: o.fail.Msg, History: ch})
-				}
-			})
+			r.Finish(vf.Coverage{Evaluations: 1, DistinctNontrivial: 1})
+			return
 		}
+		n := steps
+		if h.KV {
+			n = kvSteps
+		}
+		explore.ReplayOne(h.Choices, func(c *explore.Ctx) {
+			o := body(c, n, h.KV)
+			fmt.Println("signature:", o.sig, "events:", o.events)
+			if o.fail != nil {
+				fmt.Println(o.fail.Msg)
+				report(o, h, 0, false)
+			}
+		})
 		r.Finish(vf.Coverage{Evaluations: 1, DistinctNontrivial: 1})
 		return
 	}
-	var crashes int64
-	st := explore.Explore(explore.Config{Budgets: budgets, Deadline: vf.Pick(r, 100*time.Second, 25*time.Minute)}, func(c *explore.Ctx) {
-		o := run(c)
+	deadline := vf.Pick(r, 100*time.Second, 25*time.Minute)
+	var dblSampled atomic.Int64
+	st := explore.Explore(explore.Config{Budgets: budgets, Deadline: deadline}, func(c *explore.Ctx) {
+		o := body(c, steps, false)
 		if o.fail != nil {
-			r.Report(vf.Violation{Clause: o.fail.Clause, Tags: o.tags, Msg: fmt.Sprintf("%s\n events: %v", o.fail.Msg, o.events), Cost: c.Cost(), History: c.Choices()})
+			report(o, hist{Choices: c.Choices()}, c.Cost(), true)
 			r.Outcome("fail:" + o.fail.Clause)
 			return
 		}
 		r.Outcome(o.sig)
-		if c.Cost() >= 1 {
+		if c.Cost() >= 1 && dblSampled.Add(1) <= 3 { // the evidence keeps 6 samples: leave room for the other parts
 			r.Sample(map[string]any{"events": o.events, "signature": o.sig})
 		}
 	})
-	_ = crashes
+	// real-executor part
+	var kvAhead, kvRewrites, kvCrashed, kvSampled atomic.Int64
+	kst := explore.Explore(explore.Config{Budgets: kvBudgets, Deadline: deadline}, func(c *explore.Ctx) {
+		o := body(c, kvSteps, true)
+		if o.fail != nil {
+			kvAhead.Add(int64(o.ahead))
+			report(o, hist{KV: true, Choices: c.Choices()}, c.Cost(), true)
+			r.Outcome("KV:fail:" + o.fail.Clause)
+			return
+		}
+		kvAhead.Add(int64(o.ahead))
+		if strings.ContainsAny(o.sig, "XA") {
+			kvCrashed.Add(1)
+		}
+		for _, e := range o.events {
+			if strings.HasPrefix(e.What, "seq:rewrite") {
+				kvRewrites.Add(1)
+				break
+			}
+		}
+		r.Outcome("KV:" + o.sig)
+		if o.ahead > 0 && kvSampled.Add(1) <= 2 {
+			r.Sample(map[string]any{"part": "kv-executor", "events": o.events, "signature": o.sig})
+		}
+	})
+	if kvAhead.Load() == 0 && kst.Capped == "" {
+		r.EngineError("real-executor part is vacuous: no recovery started with the executor's database ahead of the node's recorded state")
+	}
 	cacheCases, cacheOps := cachePhase(r)
 	for _, m := range st.Nondet {
 		r.EngineError("nondeterminism: " + m)
+	}
+	for _, m := range kst.Nondet {
+		r.EngineError("nondeterminism (real-executor part): " + m)
 	}
 	var caps []string
 	if st.Capped != "" {
 		caps = append(caps, st.Capped)
 	}
+	if kst.Capped != "" {
+		caps = append(caps, "real-executor part: "+kst.Capped)
+	}
+	maxDepth := st.MaxDepth
 	r.Finish(vf.Coverage{
-		Evaluations: st.Executions + cacheCases, DistinctNontrivial: int64(r.DistinctOutcomes()), States: st.Executions + cacheCases, Transitions: st.Points,
-		Extra:      map[string]any{"cache_file_operations_logged": cacheOps, "cache_crash_images": cacheCases},
-		Rule:       "(cache part: every prefix of the real file-operation log of SaveCache plus torn writes) + every chain content (empty / non-empty batch per step) × every subset of at most `crash` crash points among ALL durable writes of the run (first start-up, every production step, every recovery start-up and the steps after it), each followed by 3 well-formed steps; distinct = distinct signatures of per-step height growth and crash positions",
+		Evaluations: st.Executions + kst.Executions + cacheCases, DistinctNontrivial: int64(r.DistinctOutcomes()), States: st.Executions + kst.Executions + cacheCases, Transitions: st.Points + kst.Points,
+		Extra: map[string]any{"cache_file_operations_logged": cacheOps, "cache_crash_images": cacheCases,
+			"double_part_executions": st.Executions, "kv_executor_part_executions": kst.Executions,
+			"kv_histories_with_a_crash":                                    kvCrashed.Load(),
+			"kv_recoveries_with_executor_database_ahead_of_recorded_state": kvAhead.Load(),
+			"kv_histories_with_a_same_value_rewrite_batch":                 kvRewrites.Load()},
+		Rule: "(cache part: every prefix of the real file-operation log of SaveCache plus torn writes) + every chain content (empty / non-empty batch per step) × every subset of at most `crash` crash points among ALL durable writes of the run (first start-up, every production step, every recovery start-up and the steps after it), each followed by 3 well-formed steps; distinct = distinct signatures of per-step height growth and crash positions. " +
+			"Real-executor part: the same histories with apps/testapp/kv.KVExecutor (own durable database, reopened by every life) as the aggregator's execution layer: every chain content per step over {batch that overwrites a key and adds one, empty batch, non-empty batch that rewrites a key with the value it has} × every subset of at most `crash` crash points among all durable writes of the node store AND all commits of the executor database (genesis record, one batch per executed block; first start-up, steps, recoveries), reboot on both surviving images, then 3 well-formed steps; same oracle, app hashes and recorded state compared with a reference KVExecutor executing the committed chain from genesis (signature letter A = recovery started with the executor database ahead of the recorded state)",
 		Exhaustive: true, Caps: caps,
-		Bounds:     map[string]any{"steps": steps, "budgets": budgets, "max_decision_points": st.MaxDepth},
+		Bounds: map[string]any{"steps": steps, "budgets": budgets, "max_decision_points": maxDepth,
+			"kv_executor": map[string]any{"steps": kvSteps, "budgets": kvBudgets, "max_decision_points": kst.MaxDepth}},
 	})
 }
